@@ -72,7 +72,7 @@ CHECKS.update({
 CHECKS.update({
  "C19": ("model_checking",
          "Full product of 178 (thorough 208) account names of every display width 1..60/70 (ASCII, inner spaces, East-Asian wide, mixed) x clear marks x 214 (438) number shapes x 8 amount kinds, with and without 5 lots x 3 costs x assertion, plus assertion-only and bare postings and every sequence of <=3 entries over 10 entry kinds x separators x LF/CRLF (2.39 M cases quick, 66.7 M thorough) through the real formatter; the output is judged by RefLayout with its own width function: 4-space indent, >=2 spaces after the account, number ends at display column 52 whenever it fits, `=` of assertion-only postings in the column it would have after an amount in that commodity, exactly one blank line between entries, metadata indented 4; every output is re-parsed.",
-         "Trusted: RefLayout and its width function (ASCII=1, the listed CJK/full-width characters=2; only those characters are generated). Assertion-only postings whose assertion is a parenthesised expression are DON'T-CARE for the column clause.",
+         "Trusted: RefLayout and its width function (ASCII=1, the listed CJK/full-width characters=2; only those characters are generated). For an assertion-only posting whose assertion is a parenthesised expression the column is the one `=` would have after an amount written as that very expression (number ending in column 52).",
          "DESIGN.md §5 C19; notes/C19-C20.md",
          "bounded-exhaustive enumeration of posting shapes (pure function, full product) vs reference layout model"),
  "C20": ("model_checking",
